@@ -93,6 +93,8 @@ def run_case(item):
     cand = pd.DataFrame({'_id': pd.Series(range(len(ltab) * len(rtab)), dtype='int64'),
                          'l_id': pd.Series([l for l in range(1, 1 + len(ltab)) for _ in range(len(rtab))], dtype='int64'),
                          'r_id': pd.Series([r for _ in range(len(ltab)) for r in range(11, 11 + len(rtab))], dtype='int64')})
+    if entry in ('apply_matcher', 'filter_candset') and tid % 3 == 2:
+        cand = cand.head(0)            # an empty candidate set must not bypass the validation
     carg = cand.values.tolist() if 'candset_not_df' in faults else cand
     clk = 'nope' if 'cand_l_key' in faults else 'l_id'
     crk = 'nope' if 'cand_r_key' in faults else 'r_id'
